@@ -18,7 +18,6 @@ import Desync.Proofs.PoolProofs
 import Desync.Proofs.ChunkStreamProofs
 import Desync.Proofs.PoolJobsProofs
 import Desync.Proofs.RemoteStoresProofs
-import Desync.Proofs.RemoteStoresShapes
 
 namespace Desync.C06
 open Desync
@@ -219,28 +218,5 @@ open Desync.Remote in
 theorem sftp_pool_leak_blocks :
     PoolM.run (PoolM.init 1) [.take, .finish false] = some ⟨0, 0⟩ ∧ ∀ e, PoolM.step ⟨0, 0⟩ e = none :=
   PoolM.leak_blocks
-
-/-- **regenerated obligations** (statement skeletons of s3.go / sftp.go, `Proofs/RemoteStoresShapes.lean`) -/
-theorem gen_remote_s3_store :
-    Gen.site_remote_s3_store_found = true ∧ Gen.site_remote_s3_store_put_found = true ∧
-    Gen.remoteS3LoopAssignsOuterErr = true ∧ Gen.remoteS3StoreSkel = Remote.Expected.remoteS3StoreSkel :=
-  Remote.gen_remote_s3_store
-
-theorem gen_remote_has :
-    Gen.site_remote_s3_has_found = true ∧ Gen.site_remote_sftp_has_found = true ∧
-    Gen.remoteS3HasSkel = Remote.Expected.remoteS3HasSkel ∧ Gen.remoteSftpHasSkel = Remote.Expected.remoteSftpHasSkel :=
-  Remote.gen_remote_has
-
-theorem gen_remote_sftp_store :
-    Gen.site_remote_sftp_storeobject_found = true ∧ Gen.site_remote_sftp_store_found = true ∧
-    Gen.remoteSftpStoreObjectSkel = Remote.Expected.remoteSftpStoreObjectSkel ∧
-    Gen.remoteSftpStoreSkel = Remote.Expected.remoteSftpStoreSkel :=
-  Remote.gen_remote_sftp_store
-
-theorem gen_remote_pool :
-    Gen.site_remote_sftp_pool_found = true ∧
-    Gen.remoteSftpPoolDeferredPutBack = ["GetChunk", "HasChunk", "Prune", "RemoveChunk", "StoreChunk"] ∧
-    Gen.remoteSftpPoolOtherTakers = [] ∧ Gen.remoteSftpPoolDrains = ["Close"] :=
-  Remote.gen_remote_pool
 
 end Desync.C06
